@@ -59,8 +59,8 @@ def run(tier, seed, extra=None):
                         # impl != Stack.v: the theorems are about a stale model; try to turn it into a property violation
                         c.broken_correspondence("c20stk", line[:1500], "Stack.v verdict: " + verdict[:400])
             # --- footprint at n and 8n
-            n = 40 if tier == "quick" else 400
-            rc, out, cases, st_fp = V.run_harness("c20", "fp", seed, n, tier, extra=extra, name="c20fp")
+            ngen = 50 if tier == "quick" else 1500   # generated tail-recursive definitions
+            rc, out, cases, st_fp = V.run_harness("c20", "fp", seed, ngen, tier, extra=extra, name="c20fp")
             if rc != 0:
                 c.broken_correspondence("harness-run fp", None, V.tail(out, 40))
             else:
